@@ -193,6 +193,41 @@ def gen_unrep_merge(rng):
 
 MERGE_MODES = ["tp", "th", "tj", "ta", "bj", "bb"]
 
+# Input classes on which the unmodified library is known to misbehave (notes/jpatch.md, "Deepening round"); generated only when
+# named in VERIF_JPATCH_OPEN (comma separated, or "all"); then the oracle reports them as violations.
+_open_env = [x for x in os.environ.get("VERIF_JPATCH_OPEN", "").split(",") if x]
+OPEN_CLASSES = ("jsreg-replace-root",)
+OPEN_ON = set(OPEN_CLASSES) if "all" in _open_env else set(x for x in _open_env if x in OPEN_CLASSES)
+
+
+def member_path(doc, path_text):
+    """True when every step of the pointer goes through an object (no array index reading is involved)"""
+    try:
+        segs = J.ptr_parse(path_text)
+    except (J.PatchError, J.Lenient):
+        return False
+    cur = doc
+    for sgm in segs:
+        if not isinstance(cur, dict):
+            return cur is MISSING
+        cur = cur.get(sgm, MISSING)
+    return True
+
+
+def remove_at(doc, path_text):
+    """iwjsreg_replace: the subtree at the path goes away first (nothing happens when there is none); "" empties the root"""
+    segs = J.ptr_parse(path_text) if path_text else []
+    if not segs:
+        return {}
+    cur = doc
+    for sgm in segs[:-1]:
+        if not isinstance(cur, dict) or sgm not in cur:
+            return doc
+        cur = cur[sgm]
+    if isinstance(cur, dict) and segs[-1] in cur:
+        del cur[segs[-1]]
+    return doc
+
 
 def heap_env():
     return dict(os.environ, ASAN_OPTIONS="detect_leaks=1:abort_on_error=0", LSAN_OPTIONS="exitcode=0:print_suppressions=0",
@@ -275,6 +310,35 @@ def check(run):
             if rng.chance(1, 12):
                 path = rng.choice(["", "/"])
             cases.append({"kind": "mpath", "doc": doc, "path": path, "val": val})
+    # the registry (iwjsreg_merge, its typed variants, iwjsreg_replace): a heap-allocated tree behind a file
+    for _ in range(N // 2):
+        keys = [rng.choice(KEYS) for _ in range(rng.range(2, 5))]
+        doc = gen_doc(rng, 3, keys)
+        while not isinstance(doc, dict):
+            doc = gen_doc(rng, 3, keys)
+        paths = [p for p, v in J.all_paths(doc) if p]
+        base = rng.choice(paths) if paths and rng.chance(3, 4) else ""
+        path = base + "".join("/" + J.esc(rng.choice(keys + ["n"])) for _ in range(rng.range(0, 2)))
+        r = rng.below(10)
+        if r < 4:
+            mode = "rm"
+            val = rng.choice([MISSING, None, gen_doc(rng, 2, keys), gen_patch_for(rng, doc, 2, keys), gen_scalar(rng)])
+            if rng.chance(1, 10):
+                path = rng.choice(["", "/", path + "/", "x", "/~2"])
+        elif r < 7:
+            mode = "rs"
+            val = rng.choice([None, True, False, 0, -7, 9223372036854775807, 0.5, -2.5, "", "s", "new string", "é"])
+            if rng.chance(1, 10):
+                path = rng.choice(["", "/"])
+        else:
+            mode = "rr"
+            val = rng.choice([MISSING, gen_doc(rng, 2, keys), gen_patch_for(rng, doc, 2, keys), gen_scalar(rng), {}])
+            if "jsreg-replace-root" in OPEN_ON and rng.chance(1, 3):
+                path = ""
+            if path == "" or not member_path(doc, path):
+                if not ("jsreg-replace-root" in OPEN_ON and path == ""):
+                    continue
+        cases.append({"kind": "reg", "mode": mode, "doc": doc, "path": path, "val": val, "origin": "registry"})
     # merged documents the binary form cannot hold, and their storable near misses
     for _ in range(N // 2):
         doc, patch, what = gen_unrep_merge(rng)
@@ -299,6 +363,12 @@ def check(run):
                 lines.append("merge %s %s %s" % (m, J.hx(dt), J.hx(c["patch_text"])))
                 heap.append(False)
                 meta.append((ci, m))
+        elif c["kind"] == "reg":
+            vt = J.gen_json(c["val"]) if c["val"] is not MISSING else None
+            c["val_text"] = vt
+            lines.append("reg %s %s %s %s" % (c["mode"][1], J.hx(dt), J.hx(c["path"]), J.hx(vt) if vt is not None else "-"))
+            heap.append(True)
+            meta.append((ci, c["mode"]))
         else:
             vt = J.gen_json(c["val"]) if c["val"] is not MISSING else None
             c["val_text"] = vt
@@ -360,9 +430,11 @@ def check(run):
         if o is None or o == "SKIPPED":
             continue
         run.dist("mode:" + m)
-        rep = {"kind": "mpath" if c["kind"] == "mpath" else "merge", "mode": m, "doc": c["doc_text"], "impl": o,
+        rep = {"kind": c["kind"] if c["kind"] in ("mpath", "reg") else "merge", "mode": m, "doc": c["doc_text"], "impl": o,
                "variant": "asan" if heap[i] else "plain"}
-        if c["kind"] == "mpath":
+        if c["kind"] == "reg" and c["path"] == "" and m == "rr":
+            rep["class"] = "jsreg-replace-root"
+        if c["kind"] in ("mpath", "reg"):
             rep["path"] = c["path"]
             rep["val"] = c.get("val_text")
         else:
@@ -425,7 +497,7 @@ def check(run):
             elif not J.eq_unordered(got, orig, binary):
                 viol("failed merge changed the document: %s -> %s" % (describe(i), o[:200]))
             continue
-        if c["kind"] == "mpath":
+        if c["kind"] in ("mpath", "reg"):
             try:
                 val = J.from_py(c["val"]) if c["val"] is not MISSING else MISSING
                 if c["path"] in ("", "/") and val is MISSING:
@@ -434,12 +506,19 @@ def check(run):
                     patch = wrap(c["path"], val)
             except (J.PatchError, J.Lenient):
                 run.dist("result:path-syntax")
-                if f["rc"] == "ok":
-                    pass
+                if c["kind"] == "reg" and (f["rc"] == "ok" or f.get("dirty") != "0" or not J.eq_unordered(got, orig, False)):
+                    viol("the registry accepted / was changed by a path that is no JSON pointer: %s -> %s" % (describe(i), o[:200]))
                 continue
+            if m == "rr":       # iwjsreg_replace: what is at the path goes away first, then the value is merged in along the path
+                orig = remove_at(J.clone(orig), c["path"])
         else:
             patch = J.from_py(c["patch"])
-        api_restricted = m in ("tp", "th", "ta") and (not isinstance(orig, dict) or not isinstance(patch, dict))
+        if c["kind"] == "reg":
+            run.dist("registry:" + m)
+            if f.get("dirty") != ("1" if f["rc"] == "ok" else "0"):
+                viol("the registry's dirty flag is %s after a call that returned %s: %s" % (f.get("dirty"), f["rc"], describe(i)))
+                continue
+        api_restricted = m in ("tp", "th", "ta", "rm", "rs", "rr") and (not isinstance(orig, dict) or not isinstance(patch, dict))
         if m == "ta" and isinstance(patch, list):
             continue          # an array is a JSON Patch document for jbn_patch_auto
         exp = merge_patch(J.clone(orig), J.clone(patch)) if patch is not MISSING else None
@@ -450,7 +529,7 @@ def check(run):
         if f["rc"] != "ok":
             if api_restricted:
                 run.dist("result:api-rejects-non-object")
-                if not J.eq_unordered(got, orig, binary):
+                if not J.eq_unordered(got, orig, binary) and m != "rr":
                     viol("rejected merge changed the document: %s -> %s" % (describe(i), o[:200]))
             elif unrep and f["rc"] == "creation":
                 run.dist("result:unrepresentable")
@@ -473,11 +552,18 @@ def check(run):
                            "storable near misses (older twin removed by a null, twin that is null inside a new value, 255 bytes, "
                            "non-ASCII case); every pair through jbn_merge_patch with a pool and with pool=0 on a "
                            "malloc-ed tree (ASan+LSan build), jbn_merge_patch_from_json, jbn_patch_auto, jbl_merge_patch, "
-                           "jbl_merge_patch_jbl, jbn_merge_patch_path; a case is one pair; distinct = distinct texts",
+                           "jbl_merge_patch_jbl, jbn_merge_patch_path; plus (origin:registry) a registry opened on a file holding the "
+                           "target (heap-allocated tree) and one call of iwjsreg_merge / iwjsreg_merge_str,_i64,_f64,_bool,_remove / "
+                           "iwjsreg_replace with a path at, below or beside existing members (ASan+LSan build; the tree is dumped, "
+                           "the dirty flag read, the registry closed and the leak check run); a case is one pair; distinct = distinct texts",
                       assumptions=["jbn_merge_patch / jbn_patch_auto / jbn_merge_patch_path take object roots and object patches only "
                                    "(IW_ERROR_INVALID_ARGS otherwise - counted, result must be unchanged)",
                                    "JSON texts use only syntax on which text parsing is not in question (C13's subject)",
                                    "member names within one object are distinct",
+                                   "iwjsreg_replace is compared with the oracle only (remove the addressed member, then MergePatch with "
+                                   "the wrapper) and only on paths through object members; replacing the whole registry (path \"\") "
+                                   "crashes the unmodified library (use after free, fixes/jpatch-jsreg-replace-root.diff) and is generated "
+                                   "only with VERIF_JPATCH_OPEN=jsreg-replace-root|all; enabled now: %s" % (", ".join(sorted(OPEN_ON)) or "none"),
                                    "binary-form modes, MergePatch result not storable in the binary form (result:unrepresentable): the "
                                    "call must report JBL_ERROR_CREATION and leave the binary document byte for byte as it was (success is "
                                    "accepted only with exactly the RFC result); a target / patch document that is itself not storable must "
